@@ -622,6 +622,78 @@ func runNaddrSplit(c *core.Ctx) {
 				c.OK(nil, fname(c, fn), `cut(":")`, P.Pos(call.Pos()), "strings.Cut keeps later colons in the remainder")
 			}
 		}
+		// an index-based reader: the *first* colon ends the kind (`IndexByte(s, ':')`); the last one never does
+		for _, ci := range calls(fn) {
+			call, ok := ci.(*ssa.Call)
+			if !ok || len(call.Call.Args) != 2 || !isColon(call.Call.Args[1]) {
+				continue
+			}
+			switch an.CalleeName(&call.Call) {
+			case "strings.IndexByte", "strings.Index", "strings.IndexRune":
+				found++
+				c.CountSites(1)
+				c.OK(nil, fname(c, fn), `index(":")`, P.Pos(call.Pos()), "the kind ends at the first colon; what follows is located from there")
+			case "strings.LastIndexByte", "strings.LastIndex":
+				found++
+				c.CountSites(1)
+				c.Bad(nil, fname(c, fn), `index(":")`, P.Pos(call.Pos()), "the address is cut at its last colon: an address kind:pubkey:d whose d contains ':' is misread")
+			}
+		}
+	}
+	// a kind read digit by digit (`kind = kind*10 + int64(c-'0')`) must not be able to wrap: the number
+	// of digits it accumulates is bounded (≤ 18) before the loop — an unbounded run of digits wraps the
+	// accumulator around into the valid range, and a malformed address is accepted
+	for _, fn := range fns {
+		for _, b := range fn.Blocks {
+			for _, in := range b.Instrs {
+				ph, ok := in.(*ssa.Phi)
+				if !ok || !isDigitAccumulator(ph) {
+					continue
+				}
+				c.CountSites(1)
+				// … or the accumulator is checked against a small range after every digit
+				if lim, okLim := accumulatorCheckedEachRound(P, ph); okLim {
+					c.OK(nil, fname(c, fn), "digit-accumulator", P.Pos(ph.Pos()), "after every digit the loop goes on only while the accumulator is ∈ "+lim+": it cannot wrap")
+					continue
+				}
+				bound, bpath := digitLoopBound(ph.Block())
+				if bound == nil {
+					c.Unknown(nil, fname(c, fn), "digit-accumulator", P.Pos(ph.Pos()), "a decimal accumulator in a loop whose bound is not recognised")
+					continue
+				}
+				set, _, okSet := an.ConstFrame(bpath).ReachSet(fn, ph.Block(), nil, nil)
+				c.Check(okSet && set.Subset(an.Range(an.NegInf, 18)), nil, fname(c, fn), "digit-accumulator", P.Pos(ph.Pos()),
+					"the digit loop runs at most "+set.Format("")+" times ("+bpath+"): the accumulator cannot wrap",
+					"the digit loop is bounded only by "+bpath+" ∈ "+set.Format("")+": a long run of digits wraps the int64 accumulator around, so an address with a kind far outside 0..65535 can be accepted")
+			}
+		}
+	}
+	// the shortest well-formed address — one kind digit, ':', 64 hex characters, ':' and an empty d, 67
+	// bytes — is accepted: a length guard in front of the reader must not exclude it
+	for _, fn := range fns {
+		if len(fn.Params) != 1 || fn.Signature.Results().Len() != 1 || len(callsNamed(fn, core.ModulePath+".validPubkey")) == 0 {
+			continue
+		}
+		if bt, ok := fn.Params[0].Type().Underlying().(*types.Basic); !ok || bt.Kind() != types.String {
+			continue
+		}
+		if rb, ok := fn.Signature.Results().At(0).Type().Underlying().(*types.Basic); !ok || rb.Kind() != types.Bool {
+			continue
+		}
+		tps, ok := an.ResultPaths(fn, 0, true)
+		if !ok {
+			continue
+		}
+		fr := an.ConstFrame("len(p:" + fn.Params[0].Name() + ")")
+		set := an.Empty()
+		for _, tp := range tps {
+			set = set.Union(fr.PathMeaning(tp.Path, nil))
+		}
+		c.CountPaths(len(tps))
+		const shortest = 1 + 1 + 64 + 1
+		c.Check(!an.Range(shortest, shortest).Intersect(set).IsEmpty(), nil, fname(c, fn), "shortest-address", P.Pos(fn.Pos()),
+			fmt.Sprintf("accepting paths admit len(address) ∈ %s, which includes the shortest well-formed address (%d bytes: \"k:<64 hex>:\")", set.Format(""), shortest),
+			fmt.Sprintf("accepting paths admit only len(address) ∈ %s: the shortest well-formed address (%d bytes: one kind digit, ':', 64-character pubkey, ':' and an empty d — e.g. the address of a kind 0 or 3 event) is refused", set.Format(""), shortest))
 	}
 	if found == 0 {
 		c.Unknown(nil, fname(c, filValid), "address-split", P.Pos(filValid.Pos()), "no split on ':' reachable from ReqFilter.Valid: the 'a' tag validator could not be located")
@@ -1467,4 +1539,119 @@ func runValSlice(c *core.Ctx) {
 		c.CountPaths(n)
 		c.Check(okp && t.Equal(an.Range(1, an.PosInf)), nil, fname(c, m), "domain(len filters)", P.Pos(m.Pos()), "valid only with len(filters) ∈ "+t.String(), "valid with len(filters) ∈ "+t.String()+", want [1,+∞)")
 	}
+}
+
+// isDigitAccumulator: ph is a loop-carried integer updated as ph*10 + x.
+func isDigitAccumulator(ph *ssa.Phi) bool {
+	for _, e := range ph.Edges {
+		add, ok := e.(*ssa.BinOp)
+		if !ok || add.Op != token.ADD {
+			continue
+		}
+		for _, side := range []ssa.Value{add.X, add.Y} {
+			mul, ok := side.(*ssa.BinOp)
+			if !ok || mul.Op != token.MUL {
+				continue
+			}
+			for i, m := range []ssa.Value{mul.X, mul.Y} {
+				other := mul.Y
+				if i == 1 {
+					other = mul.X
+				}
+				if k, isK := an.ConstInt(other); m == ssa.Value(ph) && isK && k == 10 {
+					return true
+				}
+			}
+		}
+	}
+	return false
+}
+
+// digitLoopBound: what bounds the number of iterations of the loop headed at (or around) block h — the
+// right-hand side of its `i < B` test, or the length of the string it ranges over — with B's access
+// path (the subject the interval engine is asked about).
+func digitLoopBound(h *ssa.BasicBlock) (ssa.Value, string) {
+	hdr := an.LoopHeaderOf(h)
+	if hdr == nil {
+		hdr = h
+	}
+	for blk := range an.LoopBlocks(hdr) {
+		ifi, ok := an.LastInstr(blk).(*ssa.If)
+		if !ok {
+			continue
+		}
+		// exits the loop on one edge
+		exits := false
+		for _, sc := range blk.Succs {
+			if !an.LoopBlocks(hdr)[sc] {
+				exits = true
+			}
+		}
+		if !exits {
+			continue
+		}
+		if bin, ok := ifi.Cond.(*ssa.BinOp); ok && (bin.Op == token.LSS || bin.Op == token.LEQ) {
+			if _, isPhi := bin.X.(*ssa.Phi); isPhi {
+				return bin.Y, an.PathOf(bin.Y)
+			}
+		}
+		// range over a string: `ok` of Next
+		if ex, ok := ifi.Cond.(*ssa.Extract); ok {
+			if nx, ok := ex.Tuple.(*ssa.Next); ok && nx.IsString {
+				if rg, ok := nx.Iter.(*ssa.Range); ok {
+					return rg.X, "len(" + an.PathOf(rg.X) + ")"
+				}
+			}
+		}
+	}
+	return nil, ""
+}
+
+// accumulatorCheckedEachRound: the value ph takes after a digit (ph*10 + x) is tested inside the loop
+// by a module predicate on one integer (`if !validKind(kind) { return false }`), the loop continues
+// only on the predicate's true edge, and the predicate is true only on a range far from overflow.
+func accumulatorCheckedEachRound(P *core.Program, ph *ssa.Phi) (string, bool) {
+	hdr := an.LoopHeaderOf(ph.Block())
+	if hdr == nil {
+		hdr = ph.Block()
+	}
+	loop := an.LoopBlocks(hdr)
+	for _, e := range ph.Edges {
+		add, ok := e.(*ssa.BinOp)
+		if !ok || add.Op != token.ADD || add.Referrers() == nil {
+			continue
+		}
+		for _, r := range *add.Referrers() {
+			call, ok := r.(*ssa.Call)
+			if !ok || !loop[call.Block()] || len(call.Call.Args) != 1 {
+				continue
+			}
+			g := an.StaticCallee(&call.Call)
+			if g == nil || !P.InModule(g) || len(g.Params) != 1 || g.Signature.Results().Len() != 1 {
+				continue
+			}
+			t, _, _, okM := an.ConstFrame("p:"+g.Params[0].Name()).FuncBoolMeaning(g, 0, nil, nil)
+			if !okM || !t.Subset(an.Range(-100000000000000000, 100000000000000000)) {
+				continue
+			}
+			// the false edge leaves the loop
+			ifi, ok := an.LastInstr(call.Block()).(*ssa.If)
+			if !ok {
+				continue
+			}
+			v, pol := stripNot(ifi.Cond, true)
+			if v != ssa.Value(call) {
+				continue
+			}
+			// Succs[0] is taken when Cond is true; the predicate is false on Succs[0] iff pol is false
+			falseSucc := call.Block().Succs[1]
+			if !pol {
+				falseSucc = call.Block().Succs[0]
+			}
+			if !loop[falseSucc] {
+				return t.Format(""), true
+			}
+		}
+	}
+	return "", false
 }
